@@ -5,7 +5,7 @@ import "sort"
 // Stats measures what a description contains (used for non-triviality and evidence).
 type Stats struct {
 	Apps, Types, Fields, RefFields, Eps, RestEps, Stmts, MaxDepth int
-	Kinds []string
+	Kinds                                                         []string
 }
 
 func Measure(s *Spec) Stats {
